@@ -20,10 +20,19 @@
 //! runaway evaluation, deep nesting and replays of fatal cases run in a child
 //! process on a 2 MiB thread stack.
 //!
+//! Growth ("a fixed multiple of the input size") is observed by the scaling
+//! workload in c04_scale.rs: every list-like structure a decoder walks is
+//! generated at n, 4n, 16n (64n) entries by the independent encoder, and CPU
+//! time and peak heap of the decoding step and of decode + sweep must obey
+//! a scaling law between consecutive sizes.
+//!
 //! Literal cases (`vcheck C04 --case f`): `{"ep": name, "hex": bytes}`
 //! (optionally `"isolate": true` to run it in a child), a libFuzzer artifact
-//! `{"fuzz_target": "repo|ca|resources|text", "hex": bytes}`, or
-//! `{"write_corpus": dir}` which writes the seed corpus of the fuzz targets.
+//! `{"fuzz_target": "repo|ca|resources|text", "hex": bytes}`,
+//! `{"scale": shape, "ep": name, "n": entries, "factor": 4, "salt": s}` which
+//! regenerates one shape of the scaling workload at two sizes and measures
+//! again, or `{"write_corpus": dir}` which writes the seed corpus of the fuzz
+//! targets.
 
 // Helper modules of this monitor. They are declared here (not in lib.rs) so
 // that the shared lib.rs needs no change; the fuzz targets reach the
@@ -32,6 +41,8 @@
 pub mod c04_eval;
 #[path = "c04_mut.rs"]
 pub mod c04_mut;
+#[path = "c04_scale.rs"]
+pub mod c04_scale;
 
 use self::c04_eval::{cpu_budget_ns, evaluate, heap_budget, Ep, Fixed, Opts, Outcome, ALL_EPS};
 use self::c04_mut::{self as m, Pools, T};
@@ -1637,6 +1648,16 @@ pub fn run(ctx: &mut Ctx) {
     // ---- 3b. generated RFC 3779 values at the ends of the number spaces
     run_generated_resources(ctx, &mut mon, &seeds, signer.as_ref());
     mon.flush(ctx);
+
+    // ---- 3c. every list-like structure at n and 4n (16n) entries: scaling laws
+    if crypto {
+        let env = c04_scale::Env { seeds: &seeds, pool: signer.as_ref() };
+        c04_scale::run_scaling(ctx, &mut mon, &env);
+        mon.flush(ctx);
+    }
+    if std::env::var_os("C04_SCALE_ONLY").is_some() {
+        return; // experiments only; never set by the driver
+    }
     let resign_one_in: u64 = if ctx.tier == Tier::Thorough { 16 } else { 8 };
     let mut resigned = 0u64;
     while produced < mutants {
@@ -2209,6 +2230,15 @@ fn run_case(ctx: &mut Ctx, mon: &mut Mon, case: &Value) {
     if let Some(dir) = case["write_corpus"].as_str() {
         let crypto = mon.opts.crypto;
         write_corpus(ctx, dir, crypto, mon.opts.fixed);
+        return;
+    }
+    // a scaling case: regenerate the shape at n and factor*n entries and measure again
+    if case["scale"].is_string() {
+        let crypto = mon.opts.crypto;
+        let seeds = built_seeds(crypto, usize::MAX);
+        let signer = if crypto { Some(crate::keys::PoolSigner::new(3)) } else { None };
+        let env = c04_scale::Env { seeds: &seeds, pool: signer.as_ref() };
+        c04_scale::run_scale_case(ctx, mon, &env, case);
         return;
     }
     // batch handed down by a parent shard
